@@ -7,6 +7,7 @@ package main
 
 import (
 	"fmt"
+	"math"
 	"strings"
 
 	"verifharness/hlib"
@@ -31,9 +32,10 @@ func init() {
 var badNames = []string{"ab", "a/b-chain", strings.Repeat("x", 65), "bad name", "", "chain!", "   "}
 
 type gen struct {
-	r     *hlib.Rand
-	steps []Step
-	tags  map[string]int
+	r       *hlib.Rand
+	steps   []Step
+	tags    map[string]int
+	relayer int // the account registered as relayer of the case's chain names (a TSS key is mostly this account)
 }
 
 func (g *gen) tag(s string) { g.tags[s]++ }
@@ -52,6 +54,10 @@ func (g *gen) cspec(t string, rel bool) *CSpec {
 			c.TrustS = uint64(200 + r.Intn(2000))
 		}
 		c.DelayNs = []uint64{0, 0, 5e9, 20e9}[r.Intn(4)]
+		if r.Chance(1, 12) { // processed time + delay does not fit into a uint64: the delay gate never opens
+			c.DelayNs = math.MaxUint64 - uint64(r.Intn(1000))
+			g.tag("tm-delay-overflow")
+		}
 	case "bsc":
 		c.Epoch = []uint64{3, 4, 5, 200}[r.Intn(4)]
 		c.H = c.Epoch * uint64(1+r.Intn(60))
@@ -78,6 +84,9 @@ func (g *gen) cspec(t string, rel bool) *CSpec {
 		c.AgeS = uint64(1000 + r.Intn(500))
 	default:
 		c.Acct = r.Intn(nAccts)
+		if r.Chance(7, 8) {
+			c.Acct = g.relayer // the TSS account must be a registered relayer to update its client
+		}
 	}
 	if rel {
 		c.H = uint64(1 + r.Intn(12))
@@ -138,10 +147,14 @@ func (g *gen) updates(name int, n int, relayer int) {
 	r := g.r
 	for i := 0; i < n; i++ {
 		u := &USpec{Mode: "valid", K: uint64(1 + r.Intn(3)), DtS: uint64(r.Intn(20)), NewAcct: r.Intn(nAccts), TSSAuto: true}
+		if r.Chance(5, 6) {
+			u.NewAcct = relayer // rotate the TSS key to an account that can update again
+		}
 		signer := relayer
 		switch {
 		case r.Chance(1, 6):
-			u.Mode = []string{"wrongparent", "badseal", "unauthval", "oldtime", "wrongtype", "badsig", "notrusted", "future", "baddiff"}[r.Intn(9)]
+			u.Mode = []string{"wrongparent", "badseal", "unauthval", "oldtime", "wrongtype", "badsig", "notrusted", "future", "baddiff",
+				"driftedge", "driftok", "recent", "past", "past", "badheader", "badheader"}[r.Intn(16)]
 			g.tag("update-" + u.Mode)
 		case r.Chance(1, 10):
 			signer = (relayer + 1 + r.Intn(nAccts-1)) % nAccts
@@ -150,7 +163,7 @@ func (g *gen) updates(name int, n int, relayer int) {
 		default:
 			g.tag("update-valid")
 		}
-		if r.Chance(1, 4) {
+		if r.Chance(1, 2) {
 			nv := 1 + r.Intn(4)
 			for j := 0; j < nv; j++ {
 				u.NewVals = append(u.NewVals, r.Intn(nEvmKeys))
@@ -170,6 +183,7 @@ func genSpec(root *hlib.Rand, id int, tags map[string]int) Spec {
 	names := []string{fmt.Sprintf("c18-%d-a", id), fmt.Sprintf("c18.%d_B", id), badNames[r.Intn(len(badNames))]}
 	sp := Spec{ID: id, Tag: p.x + "->" + p.y, Names: names}
 	relayer := r.Intn(nAccts)
+	g.relayer = relayer
 
 	// relayer registration (sometimes missing, sometimes malformed first)
 	if r.Chance(1, 6) {
@@ -219,8 +233,22 @@ func genSpec(root *hlib.Rand, id int, tags map[string]int) Spec {
 		g.proposal("create", 1, types4[r.Intn(4)], false, 0)
 	}
 	g.updates(0, 1+r.Intn(4), relayer)
+	if r.Chance(1, 6) { // MsgUpdateClient.ValidateBasic: invalid chain name
+		g.updates(2, 1, relayer)
+		g.tag("update-invalid-name")
+	}
+	if p.x == "bsc" && r.Chance(1, 2) { // across epoch boundaries: pending validators, validator-set switch
+		g.updates(0, 5+r.Intn(6), relayer)
+		g.tag("bsc-long-burst")
+	}
 	if r.Chance(1, 3) {
 		g.add(Step{Op: "tick", Dt: uint64(1+r.Intn(3600)) * 1e9})
+	}
+
+	if r.Chance(1, 4) { // a boundary of the trusting period: Status / the pruning step exactly at it, one unit before / after
+		g.add(Step{Op: "tickexp", Name: 0, Which: []string{"latest", "first"}[r.Intn(2)], Off: int64(r.Intn(3)) - 1})
+		g.tag("tick-expiry-boundary")
+		g.updates(0, 1+r.Intn(2), relayer)
 	}
 
 	// upgrade
@@ -251,6 +279,10 @@ func genSpec(root *hlib.Rand, id int, tags map[string]int) Spec {
 	}
 	g.proposal("toggle", 0, p.y, false, 0)
 	g.updates(0, 1+r.Intn(4), relayer)
+	if p.y == "bsc" && r.Chance(1, 2) {
+		g.updates(0, 5+r.Intn(6), relayer)
+		g.tag("bsc-long-burst")
+	}
 	if r.Chance(1, 2) {
 		g.proposal("upgrade", 0, p.y, true, 0)
 		g.updates(0, 1+r.Intn(2), relayer)
@@ -278,6 +310,9 @@ func corpus() []Spec {
 	}
 	bsc := func(h uint64, rel bool) *CSpec {
 		return &CSpec{T: "bsc", H: h, HRel: rel, TrustS: 14 * 24 * 3600, AgeS: 800, Epoch: 4, Vals: []int{0, 1, 2}, Sealer: 0}
+	}
+	ethShort := func(h uint64, rel bool) *CSpec { // trusting period 2000 s, header 1000 s old
+		return &CSpec{T: "eth", H: h, HRel: rel, TrustS: 2000, AgeS: 1000, BlockDelay: 1}
 	}
 	tss := func(a int) *CSpec { return &CSpec{T: "tss", Acct: a} }
 	reg := Step{Op: "register", Acct: 0, Chains: []int{0, 1}, NAddr: 2}
@@ -307,11 +342,142 @@ func corpus() []Spec {
 		Step{Op: "upgrade", Name: 0, C: bsc(8, true), K: ok})
 	add("c18b-eth->tss->bsc", reg, Step{Op: "create", Name: 0, C: eth(100, false), K: ok}, Step{Op: "toggle", Name: 0, C: tss(0), K: ok},
 		Step{Op: "toggle", Name: 0, C: bsc(200, false), K: ok}, upd("valid"))
+	// there and back: a client type re-installed under a name that carried it before starts from an empty store
+	add("back-tm->tss->tm", reg, Step{Op: "create", Name: 0, C: tm(0, 5, false), K: ok}, upd("valid"), Step{Op: "toggle", Name: 0, C: tss(0), K: ok},
+		Step{Op: "toggle", Name: 0, C: tm(0, 50, false), K: ok}, tick(6), upd("valid"))
+	add("back-bsc->tm->bsc", reg, Step{Op: "create", Name: 0, C: bsc(200, false), K: ok}, upd("valid"), Step{Op: "toggle", Name: 0, C: tm(0, 5, false), K: ok},
+		Step{Op: "toggle", Name: 0, C: bsc(400, false), K: ok}, upd("valid"), upd("valid"))
+	add("back-eth->bsc->eth", reg, Step{Op: "create", Name: 0, C: eth(100, false), K: ok}, upd("valid"), Step{Op: "toggle", Name: 0, C: bsc(200, false), K: ok},
+		Step{Op: "toggle", Name: 0, C: eth(300, false), K: ok}, upd("valid"), upd("valid"))
+	// upgrades of every type with valid content, then updates on top of the upgraded state
+	add("upgrade-eth", reg, Step{Op: "create", Name: 0, C: eth(100, false), K: ok}, upd("valid"), Step{Op: "upgrade", Name: 0, C: eth(5, true), K: ok}, upd("valid"), upd("valid"))
+	add("upgrade-bsc", reg, Step{Op: "create", Name: 0, C: bsc(200, false), K: ok}, upd("valid"), Step{Op: "upgrade", Name: 0, C: bsc(8, true), K: ok}, upd("valid"), upd("valid"))
+	add("upgrade-tm", reg, Step{Op: "create", Name: 0, C: tm(0, 5, false), K: ok}, upd("valid"), Step{Op: "upgrade", Name: 0, C: tm(0, 7, true), K: ok}, tick(6), upd("valid"))
+	// an upgraded ETH client lives on until the upgraded consensus state is the oldest one and is pruned
+	add("upgrade-eth-prune", reg, Step{Op: "create", Name: 0, C: ethShort(100, false), K: ok}, Step{Op: "upgrade", Name: 0, C: ethShort(2, true), K: ok},
+		upd("valid"), tick(990), upd("valid"), tick(8), upd("valid"), tick(4), upd("valid"), upd("valid"))
+	// Tendermint: processed time + delay does not fit into a uint64: created, Active, the gate never opens
+	add("tm-delay-overflow", reg, Step{Op: "create", Name: 0, C: &CSpec{T: "tm", Rev: 0, H: 5, TrustS: 14 * 24 * 3600, DelayNs: math.MaxUint64}, K: ok}, tick(6), upd("valid"))
+	// Tendermint: a header exactly max-clock-drift ahead of the block time is from the future, one nanosecond less is not
+	add("tm-drift-edge", reg, Step{Op: "create", Name: 0, C: tm(0, 5, false), K: ok}, upd("driftedge"), upd("driftok"))
+	// BSC: the validator that sealed the last block seals again (recently signed), then the valid one
+	add("bsc-recent-signer", reg, Step{Op: "create", Name: 0, C: bsc(200, false), K: ok}, upd("valid"), upd("recent"), upd("valid"))
+	// BSC: a new validator list announced at an epoch block takes over len(validators)/2 blocks later; a smaller set
+	// shrinks the window of recent signers (their entries are deleted), a larger one widens it
+	updv := func(vals ...int) Step {
+		return Step{Op: "update", Name: 0, Acct: 0, U: &USpec{Mode: "valid", K: 1, DtS: 5, NewAcct: 1, TSSAuto: true, NewVals: vals}}
+	}
+	add("bsc-valset-shrink", reg, Step{Op: "create", Name: 0, C: bsc(200, false), K: ok}, upd("valid"), upd("valid"), upd("valid"), updv(3), upd("valid"), upd("valid"), upd("valid"))
+	add("bsc-valset-grow", reg, Step{Op: "create", Name: 0, C: &CSpec{T: "bsc", H: 200, TrustS: 14 * 24 * 3600, AgeS: 800, Epoch: 4, Vals: []int{0}, Sealer: 0}, K: ok},
+		upd("valid"), upd("valid"), upd("valid"), updv(0, 1, 2, 3, 4), upd("valid"), upd("valid"), upd("valid"), upd("valid"))
+	// expiry boundaries: Status (latest consensus state) one unit before / at / one unit after timestamp + trusting
+	// period (Tendermint: expired AT the boundary, ns; BSC / ETH: expired AFTER it, s), and the same boundary for the
+	// earliest consensus state in the pruning step of an update
+	texp := func(which string, off int64) Step { return Step{Op: "tickexp", Name: 0, Which: which, Off: off} }
+	tmS := func(h uint64) *CSpec { return &CSpec{T: "tm", Rev: 0, H: h, TrustS: 3000, DelayNs: 0} }
+	bscS := func(h uint64) *CSpec {
+		return &CSpec{T: "bsc", H: h, TrustS: 3000, AgeS: 800, Epoch: 4, Vals: []int{0, 1, 2}, Sealer: 0}
+	}
+	ethS := func(h uint64) *CSpec { return &CSpec{T: "eth", H: h, TrustS: 3000, AgeS: 1000, BlockDelay: 1} }
+	for _, c := range []*CSpec{tmS(5), bscS(200), ethS(100)} {
+		add("expiry-status-"+c.T, reg, Step{Op: "create", Name: 0, C: c, K: ok}, texp("latest", -1), upd("valid"), texp("latest", -1), texp("latest", 0), upd("valid"),
+			texp("latest", 1), upd("valid"))
+		add("expiry-prune-"+c.T, reg, Step{Op: "create", Name: 0, C: c, K: ok}, upd("valid"), texp("first", -1), upd("valid"), texp("first", 0), upd("valid"),
+			texp("first", 1), upd("valid"), texp("first", 0), upd("valid"), texp("first", 1), upd("valid"))
+	}
+	// Tendermint: an update to a PAST height (skipped earlier): the consensus state is stored at the header's height, the
+	// latest height stays
+	updk := func(k uint64) Step {
+		return Step{Op: "update", Name: 0, Acct: 0, U: &USpec{Mode: "valid", K: k, DtS: 5, NewAcct: 1, TSSAuto: true}}
+	}
+	add("tm-update-past-height", reg, Step{Op: "create", Name: 0, C: tm(0, 5, false), K: ok}, updk(3), upd("past"), upd("valid"), upd("past"))
+	// ETH: the root-main keys ignore the revision number. The same block re-installed under revision 1 (consistent content)
+	// shares its root-main entry with the revision-0 state; pruning the first deletes it, pruning the second fails
+	add("eth-revision-collision", reg, Step{Op: "create", Name: 0, C: ethShort(100, false), K: ok}, upd("valid"),
+		Step{Op: "upgrade", Name: 0, C: &CSpec{T: "eth", Rev: 1, H: 100, TrustS: 2000, AgeS: 1000, BlockDelay: 1}, K: ok}, upd("valid"),
+		texp("first", 1), upd("valid"), texp("first", 1), upd("valid"), upd("valid"), upd("valid"))
+	// MsgUpdateClient.ValidateBasic refuses a header that fails its own ValidateBasic, for every type
+	add("update-bad-header-tm", reg, Step{Op: "create", Name: 0, C: tm(0, 5, false), K: ok}, upd("badheader"), upd("valid"))
+	add("update-bad-header-bsc", reg, Step{Op: "create", Name: 0, C: bsc(200, false), K: ok}, upd("badheader"), upd("valid"))
+	add("update-bad-header-eth", reg, Step{Op: "create", Name: 0, C: eth(100, false), K: ok}, upd("badheader"), upd("valid"))
+	add("update-bad-header-tss", reg, Step{Op: "create", Name: 0, C: tss(0), K: ok}, upd("badheader"), upd("valid"))
+	// ETH: a consensus state with another root than the proposed header is accepted; when it is pruned (older than
+	// the trusting period while the client is Active) the header index is looked up by ITS root and the update fails
+	add("eth-foreign-root-prune", reg, Step{Op: "create", Name: 0, C: ethShort(100, false), K: &KSpec{T: "same", AgeS: 60, Own: true, RootOK: false, ValsOK: true}},
+		upd("valid"), tick(1003), upd("valid"))
 	// C18c: consensus state of another client type
 	add("c18c-eth+tm-cons", Step{Op: "create", Name: 0, C: eth(100, false), K: &KSpec{T: "tm", AgeS: 60, RootOK: true, ValsOK: true}})
 	add("c18c-tss+tm-cons", Step{Op: "create", Name: 0, C: tss(0), K: &KSpec{T: "tm", AgeS: 60, RootOK: true, ValsOK: true}})
 	add("c18c-upgrade-toggle", Step{Op: "create", Name: 0, C: eth(100, false), K: ok},
 		Step{Op: "upgrade", Name: 0, C: eth(5, true), K: &KSpec{T: "bsc", AgeS: 60, RootOK: true}},
 		Step{Op: "toggle", Name: 0, C: tss(0), K: &KSpec{T: "eth", AgeS: 60, RootOK: true}})
+	return out
+}
+
+// sweep: the boundary histories of the corpus over a grid of parameters (thorough tier): trusting periods, epochs,
+// validator counts, block delays, time delays
+func sweep() []Spec {
+	ok := &KSpec{T: "same", AgeS: 60, Own: true, RootOK: true, ValsOK: true}
+	reg := Step{Op: "register", Acct: 0, Chains: []int{0, 1}, NAddr: 2}
+	upd := func(mode string) Step {
+		return Step{Op: "update", Name: 0, Acct: 0, U: &USpec{Mode: mode, K: 1, DtS: 5, NewAcct: 1, TSSAuto: true}}
+	}
+	updv := func(vals []int) Step {
+		return Step{Op: "update", Name: 0, Acct: 0, U: &USpec{Mode: "valid", K: 1, DtS: 5, NewAcct: 1, TSSAuto: true, NewVals: vals}}
+	}
+	texp := func(which string, off int64) Step { return Step{Op: "tickexp", Name: 0, Which: which, Off: off} }
+	var out []Spec
+	add := func(tag string, steps ...Step) {
+		i := len(out)
+		out = append(out, Spec{ID: 2000000 + i, Tag: "sweep:" + tag, Names: []string{fmt.Sprintf("sweep-%d-a", i), fmt.Sprintf("sweep-%d-b", i), "a/b"}, Steps: steps})
+	}
+	boundary := func(tag string, c *CSpec) {
+		add("expiry-status-"+tag, reg, Step{Op: "create", Name: 0, C: c, K: ok}, upd("valid"), texp("latest", -1), upd("valid"), texp("latest", -1), texp("latest", 0),
+			upd("valid"), texp("latest", 1), upd("valid"))
+		add("expiry-prune-"+tag, reg, Step{Op: "create", Name: 0, C: c, K: ok}, upd("valid"), upd("valid"), texp("first", -1), upd("valid"), texp("first", 0), upd("valid"),
+			texp("first", 1), upd("valid"), texp("first", 0), upd("valid"), texp("first", 1), upd("valid"), upd("valid"))
+	}
+	for _, trust := range []uint64{300, 3000, 14 * 24 * 3600} {
+		for _, delay := range []uint64{0, 1, 7e9, math.MaxUint64} {
+			c := &CSpec{T: "tm", Rev: uint64(len(out) % 2), H: 5, TrustS: trust, DelayNs: delay}
+			boundary(fmt.Sprintf("tm-trust%d-delay%d", trust, delay), c)
+			add(fmt.Sprintf("tm-delay-trust%d-delay%d", trust, delay), reg, Step{Op: "create", Name: 0, C: c, K: ok}, Step{Op: "tick", Dt: 1}, Step{Op: "tick", Dt: 6999999998},
+				Step{Op: "tick", Dt: 1}, Step{Op: "tick", Dt: 1}, upd("driftedge"), upd("driftok"), upd("past"))
+		}
+		for _, epoch := range []uint64{3, 4, 5, 200} {
+			for nv := 1; nv <= 5; nv++ {
+				vals := []int{0, 1, 2, 3, 4}[:nv]
+				c := &CSpec{T: "bsc", H: 2 * epoch, TrustS: trust + 2000, AgeS: 800, Epoch: epoch, Vals: vals, Sealer: 0}
+				if epoch == 4 {
+					boundary(fmt.Sprintf("bsc-trust%d-vals%d", trust, nv), c)
+				}
+				// a burst across two epoch boundaries with a shrinking and then a growing validator list
+				steps := []Step{reg, Step{Op: "create", Name: 0, C: c, K: ok}}
+				if epoch <= 5 {
+					for i := uint64(1); i <= 2*epoch+uint64(nv); i++ {
+						switch {
+						case i == epoch:
+							steps = append(steps, updv([]int{4}))
+						case i == 2*epoch:
+							steps = append(steps, updv([]int{0, 1, 2, 3, 4}))
+						case i%3 == 2:
+							steps = append(steps, upd("recent"))
+						default:
+							steps = append(steps, upd("valid"))
+						}
+					}
+				} else {
+					steps = append(steps, upd("valid"), upd("recent"), upd("valid"), upd("valid"))
+				}
+				add(fmt.Sprintf("bsc-burst-epoch%d-vals%d-trust%d", epoch, nv, trust), steps...)
+			}
+		}
+		for bd := uint64(0); bd <= 3; bd++ {
+			c := &CSpec{T: "eth", H: 100 + bd, TrustS: trust + 2000, AgeS: 1000, BlockDelay: bd}
+			boundary(fmt.Sprintf("eth-trust%d-bd%d", trust, bd), c)
+			add(fmt.Sprintf("eth-delay-trust%d-bd%d", trust, bd), reg, Step{Op: "create", Name: 0, C: c, K: ok}, upd("valid"), upd("valid"), upd("valid"), upd("valid"),
+				Step{Op: "upgrade", Name: 0, C: &CSpec{T: "eth", H: 3, HRel: true, TrustS: trust + 2000, AgeS: 900, BlockDelay: bd}, K: ok}, upd("valid"), upd("valid"), upd("valid"), upd("valid"))
+		}
+	}
 	return out
 }
